@@ -280,12 +280,84 @@ fn prop_from_env() -> Prop {
     }
 }
 
+/// Thorough tier, C01 only: the memory-error oracle. The same bounded history exploration (all
+/// nine pool types, slab capacity 2, depth 4 from the empty pool) is re-run inside the Miri
+/// interpreter, which reports use of released slab memory, overlapping or misaligned objects,
+/// double drops and invalid pointer arithmetic directly instead of by their symptoms. Miri executes
+/// each enumerated history; it is an interpreter, not a solver.
+fn miri_stage(c: &mut vcommon::Check) {
+    if std::env::var("C01_NO_MIRI").is_ok() {
+        c.assumptions.push("Miri pass disabled by C01_NO_MIRI".into());
+        return;
+    }
+    let root = vcommon::verif_root();
+    let pools = ["RawOpaquePool", "RawPinnedPool", "RawBlindPool", "LocalOpaquePool", "LocalPinnedPool", "LocalBlindPool", "OpaquePool", "PinnedPool", "BlindPool"];
+    let start = std::time::Instant::now();
+    let mut children = Vec::new();
+    for pool in pools {
+        let pay = if pool.contains("Blind") { "P64" } else { "P24" };
+        let job = format!("explore pool={pool} pay={pay} cap=2 prefix=empty strict=0 depth=4 prune=1 prop=C01");
+        let ch = std::process::Command::new("cargo")
+            .args(["+nightly", "miri", "run", "--offline", "-q", "-p", "c01", "--", "--job", &job])
+            .current_dir(root.join("harness"))
+            .env("CARGO_NET_OFFLINE", "true")
+            .env("RUSTFLAGS", "--cfg folo_verif")
+            .env("CARGO_TARGET_DIR", root.join("target").join("miri"))
+            .env("MIRIFLAGS", "-Zmiri-disable-isolation -Zmiri-permissive-provenance")
+            .env_remove("VERIF_JOB")
+            .env_remove("VERIF_REPLAY")
+            .stdout(std::process::Stdio::piped())
+            .stderr(std::process::Stdio::piped())
+            .spawn();
+        children.push((pool, job, ch));
+    }
+    let (mut histories, mut clean, mut not_run) = (0_u64, 0_u64, Vec::new());
+    for (pool, job, ch) in children {
+        let out = match ch.and_then(std::process::Child::wait_with_output) {
+            Ok(o) => o,
+            Err(e) => {
+                not_run.push(format!("{pool}: cannot run cargo miri: {e}"));
+                continue;
+            }
+        };
+        let (stdout, stderr) = (String::from_utf8_lossy(&out.stdout).into_owned(), String::from_utf8_lossy(&out.stderr).into_owned());
+        if let Some(i) = stderr.find("error: Undefined Behavior") {
+            let tail: String = stderr[i..].lines().take(12).collect::<Vec<_>>().join(" | ");
+            c.violation(&format!("miri-undefined-behavior:{pool}"), &format!("Miri: {tail}"), json!({"job": job, "miri": tail}));
+            continue;
+        }
+        let res = stdout.lines().rev().find_map(|l| l.strip_prefix("@@RESULT ")).and_then(|t| vcommon::serde_json::from_str::<Value>(t).ok());
+        match res {
+            Some(v) if out.status.success() => {
+                histories += v["histories"].as_u64().unwrap_or(0);
+                if v["violations"].as_array().is_none_or(Vec::is_empty) {
+                    clean += 1;
+                } else {
+                    for viol in v["violations"].as_array().into_iter().flatten() {
+                        c.violation(&format!("{}[under-miri]", viol["key"].as_str().unwrap_or("?")), viol["msg"].as_str().unwrap_or(""), json!({"job": job}));
+                    }
+                }
+            }
+            _ => not_run.push(format!("{pool}: no result (exit {:?}): {}", out.status.code(), stderr.lines().rev().take(3).collect::<Vec<_>>().join(" | "))),
+        }
+    }
+    c.extra.insert("miri".into(), json!({"pools": pools.len(), "clean": clean, "histories_interpreted": histories, "depth": 4, "wall_s": start.elapsed().as_secs_f64(), "not_run": not_run}));
+    c.outcome_n("miri-clean-pool", clean);
+    if !not_run.is_empty() {
+        c.cap_hit(&format!("Miri pass incomplete: {not_run:?}"));
+    }
+}
+
 fn main() {
     vcommon::quiet_panics();
-    if let Some(job) = vcommon::child_job() {
-        install_crash_handler();
+    let args: Vec<String> = std::env::args().collect();
+    let arg_job = if args.len() >= 3 && args[1] == "--job" { Some(args[2].clone()) } else { None };
+    if let Some(job) = arg_job.or_else(vcommon::child_job) {
+        if !cfg!(miri) {
+            install_crash_handler(); // signal handlers are not supported by the Miri interpreter
+        }
         // Big stack: 1 MiB payload types are initialised in place, but debug-assertion frames are fat.
-        let t = std::thread::Builder::new().stack_size(256 << 20).spawn(move || {
+        let t = std::thread::Builder::new().stack_size(if cfg!(miri) { 8 << 20 } else { 256 << 20 }).spawn(move || {
             let v = if job.starts_with("sweep") {
                 let prop = if job.contains("prop=C02") { Prop::C02 } else { Prop::C01 };
                 sweep_job(&job, prop)
@@ -317,7 +389,7 @@ fn main() {
         }
         let cfg = Cfg::from_job(job).expect("replay.job parses");
         let hist: Vec<Op> = r["history"].as_array().expect("replay.history").iter().map(|s| Op::parse(s.as_str().unwrap()).expect("op parses")).collect();
-        let out = std::thread::Builder::new().stack_size(256 << 20).spawn(move || dispatch(&cfg, Mode::Replay(&hist))).unwrap().join().unwrap();
+        let out = std::thread::Builder::new().stack_size(if cfg!(miri) { 8 << 20 } else { 256 << 20 }).spawn(move || dispatch(&cfg, Mode::Replay(&hist))).unwrap().join().unwrap();
         std::process::exit(i32::from(out["violations"].as_u64().unwrap_or(0) > 0));
     }
 
@@ -471,6 +543,9 @@ fn main() {
         if c.samples.is_empty() {
             c.engine_failure("no sample history recorded");
         }
+    }
+    if thorough && prop == Prop::C01 {
+        miri_stage(&mut c);
     }
     c.finish();
 }
